@@ -11,14 +11,14 @@ PATHS = ("docs_for_query", "query.docs", "unlimited", "limited", "unscored", "so
 
 def build_cases(run, rng, nworlds, nqueries, ndocs=(3, 7), depth=2, nletters=2, blocklimit=None,
                 paths=PATHS, scored_only=False, ops=None, storage=None, cmp="members", limits=(1, 2, 3),
-                kinds=None, alt=False, qgen=None, maxtoks=5, worldgen=None):
+                kinds=None, alt=False, qgen=None, maxtoks=5, worldgen=None, plangen=None):
     cases, meta = [], []
     for wi in range(nworlds):
         n = rng.randrange(ndocs[0], ndocs[1] + 1)
         adocs = {"k%d" % i: world.rand_doc(rng, nletters=nletters, boosts=(wi % 3 == 2), maxtoks=maxtoks) for i in range(n)}
         if worldgen:
             adocs, qgen = worldgen(rng, n)
-        plan = world.rand_plan(rng, adocs.keys())
+        plan = plangen(rng, adocs) if plangen else world.rand_plan(rng, adocs.keys())
         wcfg = {"storage": storage or rng.choice(["ram", "file"]),
                 "blocklimit": blocklimit if blocklimit else rng.choice([None, 1, 2, 3]), "compound": rng.random() < 0.7}
         w = world.World(adocs, plan, **wcfg)
